@@ -60,9 +60,9 @@ _country_modules = dict()
 def _get_cc_module(cc):
     """Get the VAT number module based on the country code."""
     # Greece uses a "wrong" country code, special case for Northern Ireland
-    cc = cc.lower().replace('el', 'gr').replace('xi', 'gb')
-    if not re.match(r'^[a-z]{2}$', cc):
+    if not re.match(r'^[A-Za-z]{2}$', cc):
         raise InvalidFormat()
+    cc = cc.lower().replace('el', 'gr').replace('xi', 'gb')
     if cc not in _country_modules:
         _country_modules[cc] = get_cc_module(cc, 'vat')
     if not _country_modules[cc]:
